@@ -2007,7 +2007,7 @@ Error Assembler::_emit(InstId inst_id, const Operand_& o0, const Operand_& o1, c
           goto InvalidPhysId;
 
         uint64_t cond = o2.as<Imm>().value_as<uint64_t>();
-        if (cond - 2u > 0xEu)
+        if (cond - 2u >= 0xEu)
           goto InvalidImmediate;
 
         opcode.reset(op_data.opcode);
@@ -4958,6 +4958,10 @@ Case_SimdLdurStur:
         if (q > 1)
           goto InvalidInstruction;
 
+        // The `.1d` arrangement is only provided by LD1/ST1.
+        if (op_data.n != 1 && q == 0 && sz == 3)
+          goto InvalidInstruction;
+
         if (op_data.n == 1)
           opc_s_size |= opc_s_size_by_n_table[n];
 
@@ -4967,6 +4971,10 @@ Case_SimdLdurStur:
 
       if (m.has_index()) {
         if (m.has_offset() || !m.is_post_index())
+          goto InvalidAddress;
+
+        // The post-index register is always an X register.
+        if (m.index_type() != RegType::kGp64)
           goto InvalidAddress;
 
         rm = m.index_id();
